@@ -874,6 +874,42 @@ def main(argv):
         res.violation({"property": PROP, "kind": "implementation violates property oracle", "what": msg, "case": c,
                        "impl_obs": o, "harness": "c02", "signature": sig}, found_input=True, signature=sig)
     res.extra["oracle_failures_by_signature"] = sigs
+    # directed probe (no model row; the envelope algebra is C11's Model/Envelope.v, the flag rule Model/SendFlags.v): a REP
+    # answers a request that reached it with a routing envelope - body frames behind the delimiter, or NO body at all (the
+    # delimiter is the request's last frame) - with a multipart reply; the peer (DEALER, AUTO_DELIMITER off) must receive
+    # ONE message: the envelope, then the reply, MORE on every frame but the last
+    # (added after the seeded change C02-rep-reply-prefix-keeps-arrival-flags)
+    pcs = []
+    for tr in ("tcp", "inproc"):
+        for req in ([[104, 111, 112], []], [[]], [[104], [], [98, 111, 100, 121]], [[104], [105], []]):
+            for rep in ([[114, 49], [], [114, 51]], [[114]], [[114, 49], [114, 50]]):
+                pcs.append({"k": "repenv", "transport": tr, "request": req, "reply": rep})
+    pobs, plog = C.run_harness("c02", pcs, PROP, tag="repenv")
+    if not res.obligation(pobs is not None and len(pobs) == len(pcs), "REP envelope probe ran: " + str(plog)[-300:]):
+        pobs = []
+    res.evaluations += len(pobs)
+    for c, o in zip(pcs, pobs):
+        res.count("repenv:" + c["transport"])
+        rows = o["rows"]
+        if any(r[0] == 99 for r in rows) or [r[1] for r in rows if r[0] == 41] != [0, 0, 0]:
+            continue                                   # set-up or request refused: nothing to judge
+        k = c["request"].index([])                     # the envelope: everything up to and including the first empty frame
+        want = [len(f) for f in c["request"][:k + 1]] + [len(f) for f in c["reply"]]
+        got = [r for r in rows if r[0] == 40]
+        msg = None
+        if len(got) != 1:
+            msg = "the REP's multipart reply reached the peer as %d messages instead of one: %s" % (len(got), got)
+        else:
+            lens, more = got[0][2::2], got[0][3::2]
+            if lens != want:
+                msg = "the peer received frames of lengths %s, expected envelope + reply %s" % (lens, want)
+            elif more != [1] * (len(want) - 1) + [0]:
+                msg = "MORE flags of the reply as received: %s (must be set on every frame but the last)" % more
+        res.nontrivial.add(json.dumps(c, sort_keys=True))
+        if msg:
+            res.violation({"property": PROP, "kind": "implementation violates property oracle", "what": msg, "case": c,
+                           "impl_obs": o, "harness": "c02 (repenv probe)"}, found_input=True)
+            break
     return res.finish(assumptions=[
         "ReadyPipeQueue is modelled sequentially (one caller at a time, capacities not reached); its interleavings are C08",
         "multi-peer delivery order is not predicted by the model: those scenarios are judged by the implementation-side oracle",
